@@ -782,6 +782,16 @@ def run_history(config, ops, use_frac, use_seed, stats=None, record=None, net_cl
     for name, pin in expect_loc.items():
         if name not in seen:
             raise Violation("used_port_bit_unbound", -1, {"port": name, "declared": pin})
+    # the negative leg of a differential pair: some vendor flows place it from the positive one and give it no line, others make it
+    # a port of the netlist like any other - then it is a used top-level port bit and needs its pin
+    il0 = plan.files.get("top.il", "")
+    il0 = il0.decode() if isinstance(il0, bytes) else il0
+    mtop = re.search(r"^module \\top$(.*?)^end$", il0, re.M | re.S)
+    if mtop is not None and config["family"] in ("gowin", "xray"):
+        top_ports = set(re.findall(r"^\s*wire (?:width \d+ )?(?:input|output|inout) \d+\s+\\(\S+)$", mtop.group(1), re.M))
+        for name, pin in optional_loc.items():
+            if isinstance(name, str) and name.split("[")[0].endswith("__n") and name.split("[")[0] in top_ports and name not in seen:
+                raise Violation("used_port_bit_unbound", -1, {"port": name, "declared": pin, "leg": "negative, a port of the netlist"})
     pins_seen = {}
     for name, pin in locs:
         if pin in pins_seen:
